@@ -69,6 +69,9 @@ class Contract:
     def describe_inputs(self, shape, ctx, vals):
         return {k: v for k, v in sorted(vals.items())}
 
+    def concretise_result(self, out, vals):
+        return concretise(out, vals)
+
     def replay(self, shape, ctx, model, clause=None):
         """Generic replay: run the UNINSTRUMENTED function natively on real Symbols, evaluate its result at
         the counter-model, and evaluate the failed clause of this contract on that concrete result."""
@@ -81,7 +84,7 @@ class Contract:
         try:
             out = f(*a, **k)
             kind = "return"
-            conc = concretise(out, vals)
+            conc = self.concretise_result(out, vals)
             clauses = self.post(shape, ctx, conc)
             observed = show(conc)
         except pyvc.Unsupported:
@@ -244,7 +247,21 @@ def _same(s, n):
     if pyvc.is_exp(s) and pyvc.is_exp(n):
         st, m, _, _ = pyvc.solve([], pyvc.den(s) == pyvc.den(n), 20000)
         return (st == PROVED), ("" if st == PROVED else f"formulas differ ({st}): {m}")
-    if s is n or s == n:
+    if s is n:
+        return True, ""
+    try:
+        if s == n:
+            return True, ""
+    except pyvc.Unsupported:
+        pass
+    if type(s) is type(n) and hasattr(s, "__dict__") and not isinstance(s, type):
+        ks = sorted(vars(s))
+        if ks != sorted(vars(n)):
+            return False, f"attributes {ks} vs {sorted(vars(n))}"
+        for k in ks:
+            ok, why = _same(getattr(s, k), getattr(n, k))
+            if not ok:
+                return False, f".{k}: {why}"
         return True, ""
     return False, f"{s!r} vs {n!r}"[:200]
 
